@@ -173,5 +173,14 @@ func GenURICase(r *vh.Rand) string {
 		return Line{Kind: 'R', A: genURI(r), B: r.Pick(tagPool)}
 	})
 	fin := r.Chance(2, 3)
-	return fmt.Sprintf("uri %d %s %s %s", r.Range(1, 3), vh.B(fin), vh.Hex(RenderURI(ls, fin)), Tokens(ls))
+	return fmt.Sprintf("uri %s %s %s %s", genPasses(r), vh.B(fin), vh.Hex(RenderURI(ls, fin)), Tokens(ls))
+}
+
+// genPasses: number of passes to acquire, with suffix L in a third of the cases (preload).
+func genPasses(r *vh.Rand) string {
+	s := fmt.Sprint(r.Range(1, 3))
+	if r.Chance(1, 3) {
+		s += "L"
+	}
+	return s
 }
